@@ -80,7 +80,7 @@ def _gen_list(r, wrapper_free, nv, shared_blocks=None, shared_wrapped=None):
             x = r.random()
             if x < 0.5:
                 return b
-            if x < 0.8 and b[0] == "n" and b[1] in ("Sum", "Product"):
+            if x < 0.8 and b[0] == "n" and b[1] in ("Sum", "Product", "Min", "Max"):
                 kids = list(b[2][0][1])
                 r.shuffle(kids)
                 return ["n", b[1], [["t", kids]]]
@@ -90,7 +90,7 @@ def _gen_list(r, wrapper_free, nv, shared_blocks=None, shared_wrapped=None):
         # no floor division: merged commuted float sums may associate differently, and a
         # discontinuous operation would amplify that legitimate rounding difference
         k = r.choice(["Sum", "Sum", "Product", "Product", "Quotient", "Quotient", "Power",
-                      "Call", "Call"])
+                      "Call", "Call", "MinMax", "Curried"])
         if k in ("Sum", "Product"):
             n = r.randint(2, 3)
             if r.random() < 0.05:
@@ -101,6 +101,14 @@ def _gen_list(r, wrapper_free, nv, shared_blocks=None, shared_wrapped=None):
             if r.random() < 0.08:
                 kids = [kids[0], kids[0]]  # t + t
             return ["n", k, [["t", kids]]]
+        if k == "MinMax":
+            a, b = expr(d + 1, maxd), expr(d + 1, maxd)
+            kids = [a, b] if r.random() < 0.5 else [b, a]
+            return ["n", r.choice(["Min", "Max"]), [["t", kids]]]
+        if k == "Curried":
+            # a call whose callee is itself a call: k(e)(e2)
+            inner = ["n", "Call", [["n", "Variable", [["s", "k"]]], ["t", [expr(d + 1, maxd)]]]]
+            return ["n", "Call", [inner, ["t", [expr(d + 1, maxd)]]]]
         if k in ("Quotient", "FloorDiv"):
             return ["n", k, [expr(d + 1, maxd), expr(d + 1, maxd)]]
         if k == "Power":
@@ -174,8 +182,10 @@ def _gen_list(r, wrapper_free, nv, shared_blocks=None, shared_wrapped=None):
 
 
 def _gen_vars(r):
-    # a variable is zero now and then: wrappers whose value is falsy (0) are still values
+    # a variable is zero now and then: wrappers whose value is falsy (0) are still values;
+    # more rarely one is not-a-number (min/max keep their first operand then)
     return {v: (["fr", 0, 1] if r.random() < 0.2 else
+                ["f", "nan"] if r.random() < 0.08 else
                 ["fr", r.randint(1, 9), r.choice([1, 1, 2, 3])])
             for v in ["a", "b", "c", "d"]}
 
@@ -260,7 +270,8 @@ def generate(seed, tier):
         ops.append(["eval", e, [what, lid, r.randrange(n)], fault])
     for _ in range(r.randint(0, 3)):
         lid, n, wf = r.choice(lists)
-        ops.append(["wrap", r.choice(["wrap_in_cse", "make_cse", "make_cse_array", "make_cse_mv"]),
+        ops.append(["wrap", r.choice(["wrap_in_cse", "make_cse", "make_cse_array", "make_cse_mv",
+                                      "make_cse_register"]),
                     lid, r.randrange(n), r.choice([None, "p"]),
                     r.choice([None, "pymbolic_eval", "pymbolic_expr"])])
     return {"config": {"nv": nv, "fault_run": fault_run}, "ops": ops}
@@ -323,6 +334,8 @@ def op_occurrences(c, acc):
 
 
 def _values_agree(a, b):
+    if isinstance(a, float) and isinstance(b, float) and a != a and b != b:
+        return True        # both not-a-number
     if isinstance(a, float) or isinstance(b, float):
         try:
             fa, fb = float(a), float(b)
@@ -374,6 +387,12 @@ def execute(scenario, open_sigs):
         ctx = {k: B.build(v) for k, v in desc["vars"].items()}
         for n, co in (("f", (3, 5, 7, 11)), ("g", (2, 9, 4, 6)), ("h", (8, 1, 3, 5))):
             ctx[n] = FakeFunction(n, sim, log, co)
+
+        def curried(a, sim=sim, log=log):
+            log.append(("k", (a,), ()))
+            sim.hit("env:k")
+            return lambda b: 17 * a + 19 * b + 23
+        ctx["k"] = curried
         return ctx
 
     def get_ev(desc):
@@ -590,6 +609,19 @@ def execute(scenario, open_sigs):
                         objs.append(o)
                 L = {"lid": lid, "orig": objs, "tagged": None, "wf": wf,
                      "canon": [canon(o, obs.memo) for o in objs]}
+                # the work-sharing sentence is about inputs built from variables, constants,
+                # sums, products, divisions, powers and calls -- nothing else
+                s2_classes = {P + n for n in ("Variable", "Sum", "Product", "Quotient",
+                                              "FloorDiv", "Power", "Call")}
+
+                def only_s2(c):
+                    if isinstance(c, list) and c:
+                        if c[0] == "E":
+                            return c[1] in s2_classes and all(only_s2(f) for f in c[2])
+                        if c[0] == "tuple":
+                            return all(only_s2(x) for x in c[1])
+                    return True
+                L["s2"] = wf and all(only_s2(c) for c in L["canon"])
                 lists[lid] = L
                 occ = []
                 for c in L["canon"]:
@@ -656,7 +688,7 @@ def execute(scenario, open_sigs):
                     allcomps += comps
                     if violation is not None:
                         break
-                if violation is None and okall and L["wf"] and not nv and which == "tagged2":
+                if violation is None and okall and L["s2"] and not nv and which == "tagged2":
                     # the histogram-based tagger wraps exact-tree repeats only and stops at the
                     # outermost one; what the statement's sharing sentence still implies for it:
                     # an operation that occurs c >= 2 times is performed fewer than c times
@@ -681,7 +713,7 @@ def execute(scenario, open_sigs):
                             break
                     events.append([opi, k, desc["ev"], lid, len(allcomps)])
                     continue
-                if violation is None and okall and L["wf"] and not nv:
+                if violation is None and okall and L["s2"] and not nv:
                     # S2 bound: per deep key, computations <= number of distinct shallow keys
                     occ = []
                     for c in L["canon"]:
@@ -789,6 +821,32 @@ def check_wrap(helper, x, prefix, scope, p, np, viol):
         elif isinstance(x, p.Expression):
             if not (isinstance(r, CSE) and r.child is x and r.prefix == prefix):
                 viol("C12/helper", {"helper": helper, "what": "node not wrapped as asked"})
+        return
+    if helper == "make_cse_register":
+        # a user class that becomes a constant class after an instance was first handled
+        class Late:
+            def __init__(self, v):
+                self.v = v
+        lt = Late(3)
+        try:
+            first = p.make_common_subexpression(lt, prefix, scope)
+        except Exception:  # noqa: BLE001
+            first = None
+        p.register_constant_class(Late)
+        try:
+            second = p.make_common_subexpression(lt, prefix, scope)
+            arr = np.empty(2, dtype=object)
+            arr[0], arr[1] = Late(4), x
+            third = p.make_common_subexpression(arr, prefix, scope)
+            if second is not lt or not isinstance(third[0], Late):
+                viol("C12/helper", {"helper": helper,
+                                    "what": "a registered constant was wrapped"})
+        finally:
+            p.unregister_constant_class(Late)
+        after = p.make_common_subexpression(lt, prefix, scope)
+        if not isinstance(after, CSE) or (first is not None and not isinstance(first, CSE)):
+            viol("C12/helper", {"helper": helper,
+                                "what": "a non-constant object was not wrapped"})
         return
     if helper == "make_cse":
         r = p.make_common_subexpression(x, prefix, scope)
